@@ -640,31 +640,7 @@ def check(run: Run) -> None:
                 run.violation("R17.4", mod, fi.qualname, cfg.nodes[n].ast, "a mutating filesystem call is reachable when corrections_only is true (dry run must not touch the filesystem)")  # type: ignore[arg-type]
 
         # ------------------------------------------------------------ R17.5
-        after = [s for s, lab in cfg.succ[R] if lab != "x"]
-        rets = _returns_reachable(cfg, after, stop=set())
-        bad_rets = [r for r in rets if error_return(cfg.nodes[r].ast)]
-        # statements after replace that may raise into an error-returning handler
-        raising_after = []
-        seen: set[int] = set()
-        stack = list(after)
-        while stack:
-            n = stack.pop()
-            if n in seen or n in (cfg.exit, cfg.raise_exit):
-                continue
-            seen.add(n)
-            for s, lab in cfg.succ[n]:
-                if lab == "x":
-                    # only exceptions that are turned into an error envelope matter here
-                    if cfg.nodes[s].kind == "handler" and any(error_return(cfg.nodes[r].ast) for r in _returns_reachable(cfg, [s], stop=set(), follow_exc=True)):
-                        raising_after.append(n)
-                else:
-                    stack.append(s)
-        ok = not bad_rets and not raising_after
-        run.instance("R17.5", f"{mod.relpath}:{inst.replace.call.lineno}", f"{fi.qualname}: {len(rets)} return(s) reachable after os.replace, none is an error envelope; no raising statement follows the replace", ok=ok)
-        for r in bad_rets:
-            run.violation("R17.5", mod, fi.qualname, "error return after os.replace", "an error envelope can be returned after the new content was installed", line=cfg.nodes[r].lineno)
-        for n in raising_after:
-            run.violation("R17.5", mod, fi.qualname, cfg.nodes[n].ast or "?", "a statement that may raise follows os.replace inside the protected region: its failure is reported as a write error although the file was replaced")
+        check_no_error_after_replace(run, "R17.5", mod, fi, cfg, R, inst)
 
         # ------------------------------------------------------------ R17.6
         reach = res.reachable_from([fi.fqn])
@@ -967,6 +943,65 @@ def _returns_reachable(cfg: CFG, starts: list[int], stop: set[int], follow_exc: 
                 continue
             stack.append(s)
     return sorted(out)
+
+
+def check_no_error_after_replace(run: Run, rule: str, mod, fi, cfg: CFG, R: int, inst) -> None:
+    """once os.replace has succeeded the call cannot end in an error envelope (shared: C17 R17.5, C16 R16.9)"""
+    after = [s for s, lab in cfg.succ[R] if lab != "x"]
+    rets = _returns_reachable(cfg, after, stop=set())
+    bad_rets = [r for r in rets if error_return(cfg.nodes[r].ast)]
+    # statements after replace that may raise into an error-returning handler
+    raising_after = []
+    seen: set[int] = set()
+    stack = list(after)
+    while stack:
+        n = stack.pop()
+        if n in seen or n in (cfg.exit, cfg.raise_exit):
+            continue
+        seen.add(n)
+        for s, lab in cfg.succ[n]:
+            if lab == "x":
+                # only exceptions that are turned into an error envelope matter here
+                # (what the handler itself does: a handler that swallows the exception and carries on is not an error
+                # path; whatever raises later is judged where it stands)
+                if cfg.nodes[s].kind == "handler" and any(error_return(cfg.nodes[r].ast) for r in _handler_outcomes(cfg, s)):
+                    raising_after.append(n)
+            else:
+                stack.append(s)
+    ok = not bad_rets and not raising_after
+    run.instance(rule, f"{mod.relpath}:{inst.replace.call.lineno}", f"{fi.qualname}: {len(rets)} return(s) reachable after os.replace, none is an error envelope; no raising statement follows the replace", ok=ok)
+    for r in bad_rets:
+        run.violation(rule, mod, fi.qualname, "error return after os.replace", "an error envelope can be returned after the new content was installed", line=cfg.nodes[r].lineno)
+    for n in raising_after:
+        run.violation(rule, mod, fi.qualname, cfg.nodes[n].ast or "?", "a statement that may raise follows os.replace inside the protected region: its failure is reported as a write error although the file was replaced")
+
+
+def _handler_outcomes(cfg: CFG, h: int, depth: int = 0) -> list[int]:
+    """returns the handling of an exception can end in: normal flow out of the handler, plus - for statements INSIDE the handler
+    body only (a re-raise, a cleanup call that fails) - the handlers further out. Statements after the handler has completed are
+    not part of the handling; what they raise is judged where they stand."""
+    hast = cfg.nodes[h].ast
+    inside = {id(x) for st in getattr(hast, "body", []) for x in ast.walk(st)} if hast is not None else set()
+    out: list[int] = []
+    seen: set[int] = set()
+    stack = [h]
+    while stack:
+        n = stack.pop()
+        if n in seen:
+            continue
+        seen.add(n)
+        node = cfg.nodes[n]
+        if isinstance(node.ast, ast.Return):
+            out.append(n)
+            continue
+        in_body = n == h or (node.ast is not None and id(node.ast) in inside)
+        for s_, lab in cfg.succ[n]:
+            if lab == "x":
+                if in_body and depth < 4 and cfg.nodes[s_].kind == "handler":
+                    out.extend(_handler_outcomes(cfg, s_, depth + 1))
+                continue
+            stack.append(s_)
+    return sorted(set(out))
 
 
 def _nodes_between(cfg: CFG, t: int, label: str, dst: int) -> set[int]:
